@@ -100,4 +100,20 @@ theorem wfheap_alloc {h : Heap} (hw : WFHeap h) : WFHeap h.alloc := by
     (fun _ => wfval_scalar _)
   exact this.1
 
+
+/-- A statement accepted under the empty write set, run at the start of an activation of `fd`: whatever its
+outcome (fall through, return, raise), every object that existed before is unchanged — the receiver included. -/
+theorem stmt_frame {P : Program} (hck : check P = true) {c : Stmt} {fd : FunDecl} {h h' : Heap} {vals : List Val}
+    {o : Outcome} (hacc : (aexec P.sums pureSum c (entryState P.nfields fd)).isSome = true)
+    (hw : WFHeap h) (hv : ∀ i, WFVal h.next (vals.getD i .scalar))
+    (hex : Exec P c h (entryEnv fd.nparams vals) h' o) :
+    ∀ id, id < h.next → h'.obj id = h.obj id := by
+  obtain ⟨s', hs'⟩ := Option.isSome_iff_exists.mp hacc
+  have post := sound_stmt (checked_of_check hck) hex pureSum h.next vals _ s' hs' (Nat.le_refl _) hv hw
+    (wfenv_entry_vals _ hv) (entry_rel _ _ _ (oldclosed_of_wf hw))
+  intro id hid
+  refine post.frame id hid ?_
+  rintro ⟨i, hi, _⟩
+  simp [pureSum] at hi
+
 end Pymeeus.Effects
